@@ -799,6 +799,11 @@ class Gen(object):
                 c = self.expr(n.elt.elt, path)
                 if isinstance(c, SNone):
                     c = fresh('none', R)
+                if isinstance(c, SList) and not c.nested() and isinstance(n.elt.elt, ast.List) and not n.elt.elt.elts:
+                    # [[[] for _ in range(a)] for _ in range(b)]: b rows of a empty lists (value semantics)
+                    clamp = lambda v: z3.If(v >= 0, v, z3.IntVal(0))
+                    return SList(z3.K(I, z3.K(I, c.arr)), clamp(outer_n), ('list', ('list', c.et)), z3.K(I, clamp(inner_n)),
+                                 z3.K(I, z3.K(I, z3.IntVal(0))))
                 if z3.is_expr(c) and not is_bool(c):
                     et = 'int' if is_int(c) else 'real'
                     clamp = lambda v: z3.If(v >= 0, v, z3.IntVal(0))
